@@ -3,6 +3,7 @@ import LsModel.PropsA
 import LsModel.DriverStrat
 import LsModel.DriverDup
 import LsModel.DriverTxn
+import LsModel.DriverCleaner
 /- lsdriver: one operation per input line, exactly one canonical output line per operation. -/
 open Ls.Drv
 
@@ -10,7 +11,7 @@ open Ls.Drv
 def handlers : List (String → List String → Option String) := [opHeader, opMerge, opC02, opStrat, opDup]
 
 /-- operations that read or update the driver state -/
-def statefulHandlers : List (String → List String → DrvState → Option (DrvState × String)) := [opTxn]
+def statefulHandlers : List (String → List String → DrvState → Option (DrvState × String)) := [opTxn, opCleaner]
 
 def step (st : DrvState) (line : String) : DrvState × String :=
   match (line.trimAscii.toString.split (· == ' ')).toList.map (·.toString) |>.filter (· ≠ "") with
